@@ -459,8 +459,18 @@ def _check_retry(run, repo, world, mod):
                                  type_comment=None, type_params=[])
             ast.fix_missing_locations(hf)
             ps = paths.summaries(hf)
+            from .. import astq
+            DEFAULTED = ("self.exceptions_on_send if exceptions is None "
+                         "else exceptions",
+                         "exceptions if exceptions is not None else "
+                         "self.exceptions_on_send")
+
+            def flag(c):
+                # a local holding the defaulted flag reads as the flag
+                t_ = astq.canon(f2, c)
+                return "exceptions" if t_ in DEFAULTED else unparse(c)
             for p_ in ps:
-                conds = {(unparse(c), b) for (c, b) in p_.conds}
+                conds = {(flag(c), b) for (c, b) in p_.conds}
                 if p_.kind == "raise" and p_.expr is None:
                     if conds != {("exceptions", True)}:
                         ok, why = False, "re-raises when %s" % sorted(conds)
@@ -482,8 +492,24 @@ def _check_retry(run, repo, world, mod):
                "handler is `except CommunicationError`, re-raising exactly "
                "when `exceptions` is true: %s" % why, where(mod, f2))
         # `exceptions` defaults to the driver attribute
-        run.ob("R-RETRY", Q + "#default",
-               "exceptions = self.exceptions_on_send" in ast.unparse(f2),
+        okd = False
+        for n_ in ast.walk(f2):
+            if isinstance(n_, ast.If) and unparse(n_.test) in (
+                    "exceptions is None", "exceptions == None") and any(
+                        unparse(b_) == "exceptions = self.exceptions_on_send"
+                        for b_ in n_.body):
+                okd = True
+            if isinstance(n_, ast.Assign) and isinstance(
+                    n_.targets[0], ast.Name) and isinstance(
+                        n_.value, ast.IfExp):
+                t_, a_, b_ = (unparse(n_.value.test), unparse(n_.value.body),
+                              unparse(n_.value.orelse))
+                if (t_ == "exceptions is None" and a_ ==
+                        "self.exceptions_on_send" and b_ == "exceptions") or (
+                        t_ == "exceptions is not None" and a_ == "exceptions"
+                        and b_ == "self.exceptions_on_send"):
+                    okd = True
+        run.ob("R-RETRY", Q + "#default", okd,
                "exceptions=None must fall back to self.exceptions_on_send",
                where(mod, f2), trivial=True)
     # waiting for the connection before each attempt
